@@ -280,17 +280,19 @@ ALPHABET: List[List[Any]] = [
 
 
 def job_exhaustive(col: Collector, seed: int, tier: str, shard: int, nshards: int, maxlen: int) -> None:
-    prefix = [["create", 1, 0], ["advance", 1], ["create", 0, 1]]
+    prefixes = [[["create", 1, 0], ["advance", 1], ["create", 0, 1]], [["create", 1, 0], ["update", 0], ["create", 0, 1]],
+                [["init", "2025-06-18", 1], ["dispatch", "ping", 0], ["init", "2025-03-26", 0]]]
     i = 0
-    for L in range(1, maxlen + 1):
-        for combo in itertools.product(range(len(ALPHABET)), repeat=L):
-            i += 1
-            if i % nshards != shard:
-                continue
-            case = {"ops": prefix + [ALPHABET[j] for j in combo]}
-            col.record(case, check(case))
+    for prefix in prefixes:
+        for L in range(1, maxlen + 1):
+            for combo in itertools.product(range(len(ALPHABET)), repeat=L):
+                i += 1
+                if i % nshards != shard:
+                    continue
+                case = {"ops": prefix + [ALPHABET[j] for j in combo]}
+                col.record(case, check(case))
     if shard == 0:
-        col.exhaustive_parts.append(f"all sequences of length<={maxlen} over a {len(ALPHABET)}-operation alphabet after a 2-session prefix")
+        col.exhaustive_parts.append(f"all sequences of length<={maxlen} over a {len(ALPHABET)}-operation alphabet after each of 3 two-session prefixes (plain, touched-before-second-create, created through initialize/ping)")
 
 
 JOBS = {"hyp": job_hyp, "exhaustive": job_exhaustive}
